@@ -179,6 +179,63 @@ func runVIS1(c *load.Ctx, r *report.RuleResult, group string) {
 			continue
 		}
 		sites := callSites(fn, callee)
+		// a helper of the same package in whose own loop every iteration makes the visiting call stands
+		// for the call (the loop moved into `addTypesOf`, `checkChildren`)
+		helperNote := ""
+		for _, b := range fn.Blocks {
+			for _, ins := range b.Instrs {
+				call, ok := ins.(*ssa.Call)
+				if !ok {
+					continue
+				}
+				h := call.Call.StaticCallee()
+				if h == nil || h == callee || h == fn || h.Blocks == nil || load.FuncPkgRel(h) != load.FuncPkgRel(fn) {
+					continue
+				}
+				hs := callSites(h, callee)
+				if len(hs) == 0 {
+					continue
+				}
+				okH := true
+				hBlocks := map[*ssa.BasicBlock]bool{}
+				for _, x := range hs {
+					hBlocks[x.Block()] = true
+				}
+				inLoopH := false
+				for _, x := range hs {
+					hh, body := innermostLoop(h, x.Block())
+					if hh == nil {
+						continue
+					}
+					inLoopH = true
+					for _, entry := range hh.Succs {
+						if !body[entry] || entry == hh {
+							continue
+						}
+						if p := escapes(entry, func(b *ssa.BasicBlock) bool { return hBlocks[b] },
+							func(b *ssa.BasicBlock) bool { return b == hh || !body[b] || endsInReturn(b) }); p != nil {
+							okH = false
+						}
+					}
+					if vi.argFrom != "" {
+						fromOK := false
+						for _, a := range x.Common().Args {
+							if elementOf(a, vi.argFrom, 0) {
+								fromOK = true
+							}
+						}
+						if !fromOK {
+							okH = false
+						}
+					}
+				}
+				if okH && inLoopH {
+					sites = append(sites, call)
+					helperNote = " (through " + h.Name() + ")"
+				}
+			}
+		}
+		_ = helperNote
 		if len(sites) == 0 {
 			r.Bad(key, c.Pos(fn.Pos()), fmt.Sprintf("%s never calls %s: %s", fn.Name(), callee.Name(), vi.why))
 			continue
@@ -226,6 +283,9 @@ func runVIS1(c *load.Ctx, r *report.RuleResult, group string) {
 			for _, s := range sites {
 				if h, _ := innermostLoop(fn, s.Block()); h == nil {
 					continue
+				}
+				if sc := s.Call.StaticCallee(); sc != callee {
+					continue // a helper: the node it visits was judged in the helper's own loop
 				}
 				ok := false
 				for _, a := range s.Common().Args {
